@@ -18,6 +18,7 @@ import (
 
 	"github.com/cinar/indicator/v2/asset"
 	"github.com/cinar/indicator/v2/strategy"
+	"github.com/cinar/indicator/v2/trend"
 	"simrt"
 )
 
@@ -111,6 +112,19 @@ func rescaleExportedOnce(v reflect.Value, k int, depth int, seen map[uintptr]boo
 			}
 			if f.Kind() == reflect.Int && strings.Contains(sf.Name, "Period") {
 				f.SetInt(int64(max(1, (int(f.Int())+k-1)/k)))
+			} else if swapMa && f.Kind() == reflect.Interface && strings.Contains(f.Type().String(), ".Ma[") {
+				// a moving average held in an exported field is replaced after construction (a user
+				// choosing another smoothing): whatever the owner derived from the old one at
+				// construction time must not survive
+				// (a slower one: the owners document no order between this smoothing and their other
+				// windows, but several rely on it being the slowest stage, as their defaults make it)
+				idle := 0
+				if !f.IsNil() {
+					if m := f.Elem().MethodByName("IdlePeriod"); m.IsValid() {
+						idle = int(m.Call(nil)[0].Int())
+					}
+				}
+				f.Set(reflect.ValueOf(trend.NewSmaWithPeriod[F](idle + 5)))
 			} else {
 				rescaleExportedOnce(f, k, depth+1, seen)
 			}
@@ -121,6 +135,10 @@ func rescaleExportedOnce(v reflect.Value, k int, depth int, seen map[uintptr]boo
 		}
 	}
 }
+
+// swapMa: see rescaleExportedOnce; set by scaleConfig for the cases that configure through
+// exported fields only.
+var swapMa bool
 
 var variantFactor = []float64{1, 1.5, 0.5, 0} // 0: degenerate but legal (an index that starts at zero, a zero percentage)
 
